@@ -224,6 +224,12 @@ def c16(run):
                 run.fail(case, 'callbacks invoked up to the failing one are not exactly the first i+1 nodes')
 
 
+    # a visitor whose output records the SHAPE of the fold (neither associative nor with a neutral default): results are
+    # combined from the default, left to right, exactly as the model's walk combines them
+    shq = ['walkshape ' + hx(src) for _, src, _ in progs_]
+    run.tie(shq, functional=True, desc=lambda i: {'program': progs_[i][1], 'section': 'fold shape'})
+    for _, src, _ in progs_:
+        run.case(('shape', src), True, kind='fold-shape')
     # a visitor that overrides the LEAF callbacks only (every dispatching method is the library's default body, which the full
     # recorder re-implements and so cannot observe): the leaves, in order, are those of the independent enumeration
     lq, lmeta = [], []
